@@ -109,11 +109,11 @@ func checkFit(x *vt.Ctx, s Sched, n Node, ws []placed) *vt.Finding {
 		}
 		if w.numa != "" {
 			anyNUMA = true
-			perNUMA[w.numa] += w.mem
+			perNUMA[w.numa] = satAdd64(perNUMA[w.numa], w.mem)
 		} else if n.NUMA && len(w.cpuMap) > 0 {
 			anyCross = true
 		}
-		total += w.mem
+		total = satAdd64(total, w.mem)
 	}
 	for c, p := range perCore {
 		idx, ok := coreIndex(n, c)
@@ -280,3 +280,11 @@ func runC04Pure(x *vt.Ctx, c C04Case) *vt.Finding {
 var propC04Pure = vt.Prop[C04Case]{ID: "C04", Test: "TestC04Pure", Gen: genC04, Run: runC04Pure}
 
 func TestC04Pure(t *testing.T) { propC04Pure.Check(t) }
+
+// satAdd64 adds non-negative memory amounts without wrapping (requests close to 2^63 are generated).
+func satAdd64(a, b int64) int64 {
+	if b > 0 && a > math.MaxInt64-b {
+		return math.MaxInt64
+	}
+	return a + b
+}
